@@ -10,10 +10,12 @@ A case (JSON-able dict):
   on_exc    bool        machine has an on_exception callback
   ignore    bool        ignore_invalid_triggers
   n_models  int
+  attach    'ctor'|'list'|'each'   models given to the constructor | ONE add_model([..]) call | one call per model
+  late      [model]     models attached later by an ["add", model] op of a callback
   protected [tag]       top-level triggers whose task is put into machine.protected_tasks
   triggers  [[model, event]]          top-level triggers, tags 0..n-1, started in this order
   script    {"tag:slot:idx": [op]}    what that recorder does when invoked for that tag
-               op: ["susp"] | ["trig", model, event, newtag] | ["raise", n] | ["remove", model] | ["ret", 0|1]
+               op: ["susp"] | ["trig", model, event, newtag] | ["raise", n] | ["remove", model] | ["add", model] | ["ret", 0|1]
   schedule  [int]       at the k-th quiescence release pending[schedule[k] % len(pending)] (default 0)
 
 Log items (tuples, first field = kind):
@@ -72,6 +74,7 @@ class Run(object):
         self.machine = None
         self.hang = None
         self.nquiet = 0
+        self.recording = False     # state writes are logged (not while models are being attached)
         self.branching = []
 
     # ------------------------------------------------------------------ observation helpers
@@ -105,7 +108,7 @@ class Run(object):
 
             @state.setter
             def state(self, v):
-                if run.machine is not None:
+                if run.recording:
                     run.log.append(('set', _event_tag(), run.midx(self), v if isinstance(v, str) else repr(v),
                                     run.chain()))
                 self._st = v
@@ -165,12 +168,23 @@ class Run(object):
         if case['hsm']:
             transitions.append(tr('hop', 'B_x', 'B_y'))
         q = {0: False, 1: True, 2: 'model'}[case['queued']]
-        self.machine = M(model=self.models, states=states, transitions=transitions, initial='A', queued=q,
+        attach = case.get('attach', 'ctor')
+        late = case.get('late', [])
+        first = [m for i, m in enumerate(self.models) if i not in late]
+        self.machine = M(model=first if attach == 'ctor' else None, states=states, transitions=transitions, initial='A', queued=q,
                          auto_transitions=False, ignore_invalid_triggers=case.get('ignore', False),
                          prepare_event=recs('prepare_event'), before_state_change=recs('before_state_change'),
                          after_state_change=recs('after_state_change'), finalize_event=recs('finalize_event'),
                          on_exception=recs('on_exception') if case['on_exc'] else None)
+        # how the models get attached is part of the case: constructor list | ONE add_model call with the list |
+        # one add_model call per model; models in case['late'] are attached by a callback during the run
+        if attach == 'list':
+            self.machine.add_model(first)
+        elif attach == 'each':
+            for m in first:
+                self.machine.add_model(m)
         self.log = []
+        self.recording = True
 
     def ops(self, tag, slot, idx):
         return self.case['script'].get('%s:%s:%d' % (tag, slot, idx), [])
@@ -189,6 +203,8 @@ class Run(object):
                     raise UserExc(op[1])
                 if op[0] == 'remove':
                     run.do_remove(op[1])
+                if op[0] == 'add':
+                    run.do_add(op[1])
                 if op[0] == 'ret':
                     res = bool(op[1])
             run.log.append(('cbend', tag, slot, idx, 'ok'))
@@ -215,6 +231,8 @@ class Run(object):
                         raise UserExc(op[1])
                     elif op[0] == 'remove':
                         run.do_remove(op[1])
+                    elif op[0] == 'add':
+                        run.do_add(op[1])
                     elif op[0] == 'ret':
                         res = bool(op[1])
             except asyncio.CancelledError:
@@ -232,6 +250,16 @@ class Run(object):
         if m in self.machine.models:
             self.log.append(('remove', mi, self.chain()))
             self.machine.remove_model(m)
+
+    def do_add(self, mi):
+        m = self.models[mi]
+        if m not in self.machine.models:
+            self.log.append(('add', mi, self.chain()))
+            self.recording = False
+            try:
+                self.machine.add_model(m)
+            finally:
+                self.recording = True
 
     async def suspend(self, key):
         n = self.fseq.get(key, 0)
